@@ -74,6 +74,10 @@ def sources(svg):
         return svg.Path("M1,1 L3,-2 Q7,5 -4,1.5 C11,-6 0.25,13 -8.5,2.75 A5,8 30 0,1 2,2 z", transform="rotate(20)",
                         fill="red", stroke="#0000ff80", stroke_width=2.5, id="p1", extra="e")
 
+    def path2():
+        # two subpaths: the second Move carries a start point (the first one's is None)
+        return svg.Path("M1,1 L3,-2 z M5,5 Q6,6 7,5 L9,9", transform="translate(3,4)", stroke="black")
+
     def group():
         g = svg.Group(id="g1", transform="translate(1,2)")
         inner = svg.Group(id="g2")
@@ -99,7 +103,7 @@ def sources(svg):
         "quad": lambda: svg.QuadraticBezier(P(0, 0), P(7, 5), P(-4, 1.5)),
         "cubic": lambda: svg.CubicBezier(P(0, 0), P(7, 5), P(-4, 1.5), P(11, -6)),
         "arc": lambda: svg.Arc(P(0, 0), 10, 5, 30, 0, 1, P(7, 4)),
-        "path": path, "subpath": lambda: svg.Path("M0,0 L1,1 z M5,5 Q6,6 7,5 L9,9").subpath(1),
+        "path": path, "path2": path2, "subpath": lambda: svg.Path("M0,0 L1,1 z M5,5 Q6,6 7,5 L9,9").subpath(1),
         "rect": lambda: svg.Rect(2, 3, 7, 5, 1.5, 1, "skewX(10)", "blue", "red"),
         "circle": lambda: svg.Circle(4, -3, 2.5, fill="#123456", id="c"), "ellipse": lambda: svg.Ellipse(4, -3, 2.5, 1.25, "rotate(30)"),
         "sline": lambda: svg.SimpleLine(1, 2, 6, -4, stroke="black"),
@@ -123,6 +127,11 @@ def derivations(svg):
         "copy": lambda x: _copy.copy(x),
         "mul": lambda x: x * Mx(),
         "abs": lambda x: abs(x),
+        # the shortcut inputs: an exactly-identity matrix (as object, as empty / neutral string) invites "nothing to do,
+        # return self"
+        "mul-identity": lambda x: x * svg.Matrix(),
+        "mul-scale(1)": lambda x: (x * "scale(1)") if isinstance(x, (svg.Shape, svg.PathSegment, svg.Path, svg.Group, svg.Matrix)) else NotImplemented,
+        "M*x-identity": lambda x: (svg.Matrix() * x) if isinstance(x, (svg.PathSegment, svg.Point)) else NotImplemented,
         "Path(x)": lambda x: svg.Path(x) if isinstance(x, (svg.Shape, svg.Subpath, svg.PathSegment)) else NotImplemented,
         "Group(x)": lambda x: svg.Group(x) if isinstance(x, svg.Group) else NotImplemented,
         "type(x)(x)": lambda x: type(x)(x) if isinstance(x, (svg.Shape, svg.Point, svg.Matrix, svg.Color, svg.Viewbox)) else NotImplemented,
